@@ -166,4 +166,11 @@ def accidental(ecc, nfiles):
         meta = ecc[s + len(MARKER):f["track"][0]]
         if meta.count(DELIM) != 4:
             return True
+        # a field (or the previous entry) ending in a proper prefix of the delimiter / marker makes the search find it EARLY: the
+        # occurrence found is then overlapped by the real one, two or four bytes (marker: up to eight) further on
+        for q in f["delims"]:
+            if any(ecc[q + sh:q + sh + len(DELIM)] == DELIM for sh in (2, 4)):
+                return True
+        if any(ecc[s + sh:s + sh + len(MARKER)] == MARKER for sh in (2, 4, 6, 8)):
+            return True
     return False
